@@ -6,10 +6,6 @@ open Sysdrv
 let vcidr_tbl : (string, vfield) Hashtbl.t = Hashtbl.create 64
 let vsel_tbl : (string, vterm list option) Hashtbl.t = Hashtbl.create 64
 
-let selop_of_string = function
-  | "In" -> Some OpIn | "NotIn" -> Some OpNotIn | "Exists" -> Some OpExists | "DoesNotExist" -> Some OpDoesNotExist
-  | "Gt" -> Some OpGt | "Lt" -> Some OpLt | _ -> None
-
 let rec nat_of_int i = if i <= 0 then O else S (nat_of_int (i - 1))
 
 let parse_vterms (s : string) : vterm list =
@@ -44,23 +40,11 @@ let load_pure_oracles (path : string) : unit =
 
 let rec int_of_nat = function O -> 0 | S n -> 1 + int_of_nat n
 
-(* selector spec -> the model's nodesel (own parser of the case-file mini language) *)
-let nodesel_of_spec (s : string) : term list option =
-  if s = "-" then None else if s = "0" then Some [] else
-  Some (List.map (fun t ->
-      let reqs = List.filter (fun r -> r <> "") (String.split_on_char ';' t) in
-      let mk r =
-        let isf = String.length r > 2 && String.sub r 0 2 = "F." in
-        let r = if isf then String.sub r 2 (String.length r - 2) else r in
-        let (k, op, vs) = match String.split_on_char ':' r with
-          | [k; op; vs] -> (k, op, vs) | [k; op] -> (k, op, "") | [k] -> (k, "", "") | k :: op :: rest -> (k, op, String.concat ":" rest) | [] -> ("", "", "") in
-        let vals = if vs = "" then [] else List.map (fun v -> if v = "EMPTY" then "" else v) (String.split_on_char '+' vs) in
-        (* an operator outside the six is kept distinguishable by tagging the key (update comparison only) *)
-        let (k, o) = match selop_of_string op with Some o -> (k, o) | None -> (k ^ "\000op=" ^ op, OpIn) in
-        (isf, { rkey = str_of_string k; rop = o; rvals = List.map str_of_string vals }) in
-      let all = List.map mk reqs in
-      { t_exprs = List.map snd (List.filter (fun (f, _) -> not f) all); t_fields = List.map snd (List.filter (fun (f, _) -> f) all) })
-      (String.split_on_char '|' s))
+let hxs (s : string) : string = if s = "" then "-" else hex_of_string s
+let unhxs (h : string) : string = if h = "-" then "" else unhex h
+let pop_name = function
+  | PIn -> "In" | PNotIn -> "NotIn" | PEq -> "Eq" | PDEq -> "DEq" | PNe -> "Ne" | PExists -> "Exists" | PDNE -> "DoesNotExist"
+  | PGt -> "Gt" | PLt -> "Lt"
 
 let pview_of_tok (tok : string) (hb : int) : pview option =
   if tok = "-" then None else
@@ -106,17 +90,30 @@ let run (ic : in_channel) (oc : out_channel) : unit =
          let a = item_of_fields (take 5 rest) and b = item_of_fields (drop 6 rest) in
          Printf.fprintf oc "less %d\n" (if less a b then 1 else 0)
        | ["selkey"; spec] ->
-         (match Hashtbl.find_opt selkey_tbl spec with
-          | Some (Some k) -> Printf.fprintf oc "key %s\n" (if k = "" then "-" else hex_of_string k)
-          | _ -> Printf.fprintf oc "key fail\n")
+         (* the model's own nodeSelectorKey: NewRequirement per requirement, print, one parse of the printed form *)
+         (match selector_key (reqs_of_spec spec) with
+          | Some k -> Printf.fprintf oc "key %s\n" (hxs (string_of_str k))
+          | None -> Printf.fprintf oc "key fail\n")
        | ["match"; spec; ls] ->
-         (match Hashtbl.find_opt selkey_tbl spec with
-          | Some (Some _) ->
+         (match selector_key (reqs_of_spec spec) with
+          | Some _ ->
             (* the model evaluates the selector's OWN requirements (no print / parse round trip) *)
-            let reqs = match nodesel_of_spec spec with Some ts -> flatten_sel ts | None -> default_reqs in
-            let (ok, cnt) = match_reqs (labels_of_tok ls) reqs in
+            let (ok, cnt) = match_reqs (labels_of_tok ls) (reqs_of_spec spec) in
             Printf.fprintf oc "match %d %s\n" (if ok then 1 else 0) (dec_of_n cnt)
-          | _ -> Printf.fprintf oc "match keyfail\n")
+          | None -> Printf.fprintf oc "match keyfail\n")
+       | ["parse"; h] ->
+         (match parse (str_of_string (unhxs h)) with
+          | None -> Printf.fprintf oc "parse fail\n"
+          | Some [] -> Printf.fprintf oc "parse ok -\n"
+          | Some ps ->
+            Printf.fprintf oc "parse ok %s\n"
+              (String.concat ";" (List.map (fun p ->
+                   Printf.sprintf "%s:%s:%s" (hxs (string_of_str p.pkey)) (pop_name p.pop_)
+                     (String.concat "+" (List.map (fun v -> hxs (string_of_str v)) p.pvals))) ps)))
+       | ["mkey"; h; ls] ->
+         (match match_key (labels_of_tok ls) (str_of_string (unhxs h)) with
+          | None -> Printf.fprintf oc "mkey err\n"
+          | Some (ok, cnt) -> Printf.fprintf oc "mkey %d %s\n" (if ok then 1 else 0) (dec_of_n cnt))
        | "vspec" :: rest when List.length rest = 4 ->
          Printf.fprintf oc "errs %d\n" (int_of_nat (validate_spec (vspec_of_fields rest)))
        | "vupd" :: rest when List.length rest = 9 ->
